@@ -58,6 +58,12 @@ pub enum Call {
     PlainStyle,
     /// wait until a frame has been painted since this call began (by the steady-tick thread: nobody else draws)
     AwaitFirstFrame,
+    /// the terminal shows the message set by the last `Msg` call (the frame on screen is the current one)
+    ExpectMsgShown,
+    /// disable_steady_tick() / tick() through the handle the thread's own handle was cloned from (the
+    /// ticker belongs to the bar, whichever handle installed it)
+    DisableOrig,
+    TickOrig,
     /// one second goes by (200 clock readings of 5 ms)
     ClockBurn,
     /// reset_eta() (leaves the position alone)
@@ -170,6 +176,12 @@ pub fn programs_for(family: &str, tier: &str) -> Vec<Program> {
                         }
                     }
                 }
+            }
+            // steady tick enabled through a clone, then disabled / ticked by hand through the handle it was cloned from
+            for en in [Call::Enable, Call::EnableShort] {
+                v.push(Program { hz: false, start_hidden: false, no_len: false, family: "C08", multi: false, ticker: false, share: Share::Clone, threads: vec![vec![en, Call::DisableOrig, Call::Tick]] });
+                v.push(Program { hz: false, start_hidden: false, no_len: false, family: "C08", multi: false, ticker: false, share: Share::Clone, threads: vec![vec![en, Call::TickOrig, Call::TickOrig]] });
+                v.push(Program { hz: false, start_hidden: false, no_len: false, family: "C08", multi: false, ticker: false, share: Share::Clone, threads: vec![vec![en], vec![Call::DisableOrig]] });
             }
             // the calls that touch the ticker slot, made through handles obtained from a WeakProgressBar
             {
@@ -387,6 +399,10 @@ pub fn programs_for(family: &str, tier: &str) -> Vec<Program> {
         "L01" => {
             // the single-bar half of L03, reported under C01 (frame/log integrity of a standalone bar)
             v = programs_for("L03", tier).into_iter().filter(|p| !p.multi).map(|mut p| { p.family = "L03"; p }).collect();
+            // a change made after the bar was finished under a steady ticker is painted (the ticker thread has exited)
+            for en in [Call::Enable, Call::EnableShort] {
+                v.push(Program { hz: false, start_hidden: false, no_len: false, family: "L03", multi: false, ticker: false, share: Share::Clone, threads: vec![vec![en, Call::Finish, Call::Msg, Call::ExpectMsgShown]] });
+            }
         }
         "L03" => {
             let other: Vec<Call> = vec![Call::Tick, Call::Inc(1), Call::Msg, Call::Finish, Call::Println, Call::TickB];
@@ -561,6 +577,12 @@ fn do_call(c: Call, pb: &ProgressBar, w: &World, sh: &Shared) {
                 }
             }
         }
+        Call::ExpectMsgShown => {
+            let doc = w.spy.doc();
+            if !doc.iter().any(|r| r.starts_with("a:") && r.contains(" m")) {
+                oracle(format!("frame: set_message returned but the terminal still shows an earlier frame: {:?}", doc));
+            }
+        }
         Call::ClockBurn => {
             for _ in 0..200 {
                 let _ = Instant::now();
@@ -614,6 +636,11 @@ fn do_call(c: Call, pb: &ProgressBar, w: &World, sh: &Shared) {
             pb.disable_steady_tick();
             sh.disable_returned.store(true, Ordering::SeqCst);
         }
+        Call::DisableOrig => {
+            w.a.disable_steady_tick();
+            sh.disable_returned.store(true, Ordering::SeqCst);
+        }
+        Call::TickOrig => w.a.tick(),
         Call::Finish => {
             pb.finish();
             sh.finish_returned.store(true, Ordering::SeqCst);
@@ -810,7 +837,7 @@ pub fn execute(p: &Program, timeouts: usize, obs: &Obs) {
             }
             // after disable_steady_tick() (with no later enable) a manual tick() reaches the bar again
             for t in &p.threads {
-                if let Some(d) = t.iter().rposition(|c| *c == Call::Disable) {
+                if let Some(d) = t.iter().rposition(|c| matches!(c, Call::Disable | Call::DisableOrig)) {
                     let later = &t[d + 1..];
                     if p.threads.len() == 1 && later.contains(&Call::Tick) && !later.iter().any(|c| matches!(c, Call::Enable | Call::EnableShort | Call::EnableMax | Call::Finish | Call::Abandon)) && sh.worker_tracker_ticks.load(Ordering::SeqCst) == 0 {
                         oracle("ticker: a manual tick() after disable_steady_tick() does not advance the bar (a steady ticker still counts as installed)".into());
